@@ -666,6 +666,180 @@ Definition b16_push_all_cap (cap : option N) (s : list N) :=
   push_all_g dec16 (b16_push_cap cap) b16_finalize b16_new s.
 
 (* ------------------------------------------------------------------ *)
+(* Users of the codecs in presentation format:                         *)
+(* base/scan.rs  Symbol::{from_chars,into_char}, IterScanner::          *)
+(*               {convert_token,convert_entry} driving a converter      *)
+(* rdata/nsec3.rs Nsec3Salt / OwnerHash  FromStr, Display, scan         *)
+(* Additional error codes: 5 bad escape sequence, 6 too long            *)
+
+Definition E_BAD_ESCAPE : N := 5.
+Definition E_TOOLONG : N := 6.
+
+Inductive symbol := SChar (c : N) | SSimple (c : N) | SDecimal (c : N).
+
+Definition is_digit (c : N) : bool := (48 <=? c) && (c <=? 57).
+
+(* Symbols::new(chars) iterated to its end: the symbols before the first
+   malformed escape sequence, and whether the whole text was consumed
+   (Symbols::ok) *)
+Fixpoint symbols (s : list N) : list symbol * bool :=
+  match s with
+  | [] => ([], true)
+  | c :: r =>
+      if negb (c =? 92) then let '(l, ok) := symbols r in (SChar c :: l, ok)
+      else
+        match r with
+        | [] => ([], false)
+        | d1 :: r1 =>
+            if is_digit d1 then
+              match r1 with
+              | [] => ([], false)
+              | d2 :: r2 =>
+                  if is_digit d2 then
+                    match r2 with
+                    | [] => ([], false)
+                    | d3 :: r3 =>
+                        if is_digit d3 then
+                          let v := (d1 - 48) * 100 + (d2 - 48) * 10 + (d3 - 48) in
+                          if sym_decimal_max <? v then ([], false)
+                          else let '(l, ok) := symbols r3 in (SDecimal v :: l, ok)
+                        else ([], false)
+                    end
+                  else ([], false)
+              end
+            else if 255 <? d1 then ([], false)                 (* u8::try_from *)
+            else if (d1 <? sym_simple_min) || (sym_simple_max <? d1) then ([], false)
+            else let '(l, ok) := symbols r1 in (SSimple d1 :: l, ok)
+        end
+  end.
+
+Definition into_char (y : symbol) : option N :=
+  match y with
+  | SChar c => Some c
+  | SSimple c => if (sym_char_min <=? c) && (c <? sym_char_lim) then Some c else None
+  | SDecimal _ => None
+  end.
+
+Section IterScanner.
+  Variable chk : bool.   (* does the scanner call Symbols::ok() after the loop? *)
+  Variable C : Type.
+  Variable process : C -> symbol -> outcome (C * list N).
+  Variable tail : C -> outcome (list N).
+
+  Fixpoint feed (c : C) (acc : list N) (l : list symbol) : outcome (C * list N) :=
+    match l with
+    | [] => Ok (c, acc)
+    | y :: r => do cr <- process c y; feed (fst cr) (acc ++ snd cr) r
+    end.
+
+  (* for sym in Symbols::new(token.chars()) { process_symbol; append }
+     [ symbols.ok()?  -- only with pending/C18-iterscanner-bad-escape.diff ] *)
+  Definition scan_token (c : C) (acc : list N) (token : list N) : outcome (C * list N) :=
+    let '(syms, ok) := symbols token in
+    do ca <- feed c acc syms;
+    if chk && negb ok then Err E_BAD_ESCAPE else Ok ca.
+
+  Definition convert_token (c0 : C) (token : list N) : outcome (list N) :=
+    do ca <- scan_token c0 [] token;
+    do t <- tail (fst ca);
+    Ok (snd ca ++ t).
+
+  Fixpoint convert_entry_from (c : C) (acc : list N) (tokens : list (list N)) : outcome (list N) :=
+    match tokens with
+    | [] => do t <- tail c; Ok (acc ++ t)
+    | tk :: r => do ca <- scan_token c acc tk; convert_entry_from (fst ca) (snd ca) r
+    end.
+End IterScanner.
+
+(* process_symbol of the three codec converters on a Symbol *)
+Definition sym_char (y : symbol) : outcome N :=
+  match into_char y with Some ch => Ok ch | None => Err E_CONV_ILLEGAL end.
+Definition c64_sym (c : conv64) (y : symbol) := do ch <- sym_char y; c64_process_char c ch.
+Definition c32_sym (c : conv32) (y : symbol) := do ch <- sym_char y; c32_process_char c ch.
+Definition c16_sym (c : conv16) (y : symbol) := do ch <- sym_char y; c16_process_symbol c (Sym ch).
+
+Definition b64_scan_token := convert_token iter_scanner_checks_escapes conv64 c64_sym c64_process_tail c64_new.
+Definition b32_scan_token := convert_token iter_scanner_checks_escapes conv32 c32_sym c32_process_tail c32_new.
+Definition b16_scan_token := convert_token iter_scanner_checks_escapes conv16 c16_sym c16_process_tail c16_new.
+Definition b64_scan_entry := convert_entry_from iter_scanner_checks_escapes conv64 c64_sym c64_process_tail c64_new [].
+Definition b32_scan_entry := convert_entry_from iter_scanner_checks_escapes conv32 c32_sym c32_process_tail c32_new [].
+Definition b16_scan_entry := convert_entry_from iter_scanner_checks_escapes conv16 c16_sym c16_process_tail c16_new [].
+
+(* --- Nsec3Salt --- *)
+Definition over (inclusive : bool) (max : N) (bs : list N) : bool :=
+  if inclusive then max <? N.of_nat (length bs) else max <=? N.of_nat (length bs).
+Fixpoint list_eqb (a b : list N) : bool :=
+  match a, b with
+  | [], [] => true
+  | x :: a', y :: b' => (x =? y) && list_eqb a' b'
+  | _, _ => false
+  end.
+
+Definition salt_from_str (s : list N) : outcome (list N) :=
+  if list_eqb s [nsec3_salt_empty_char] then Ok []
+  else match b16_decode s with
+       | Ok bs => if over nsec3_salt_limit_inclusive nsec3_salt_max bs then Err E_TOOLONG else Ok bs
+       | other => other
+       end.
+Definition salt_display (bs : list N) : outcome (list N) :=
+  match bs with [] => Ok [nsec3_salt_empty_display] | _ => b16_display bs end.
+
+(* the local Converter of Nsec3Salt::scan: None = nothing seen yet,
+   Some None = "-" seen, Some (Some c) = Base 16 data; second field: octets so
+   far (only kept with pending/C18-nsec3-scan-length.diff) *)
+Record saltconv := mksc { sc_st : option (option conv16); sc_len : N }.
+Definition salt_process (limited : bool) (sc : saltconv) (y : symbol) : outcome (saltconv * list N) :=
+  let first_dash :=
+    match sc_st sc with
+    | None => match into_char y with Some c => c =? nsec3_salt_scan_empty_char | None => false end
+    | _ => false
+    end in
+  if first_dash then Ok (mksc (Some None) (sc_len sc), [])
+  else
+    match (match sc_st sc with None => Some (Some c16_new) | st => st end) with
+    | None => Panic 4
+    | Some None => Err E_CONV_ILLEGAL
+    | Some (Some c) =>
+        do cr <- c16_sym c y;
+        if limited then
+          let len' := sc_len sc + N.of_nat (length (snd cr)) in
+          if nsec3_salt_max <? len' then Err E_TOOLONG
+          else Ok (mksc (Some (Some (fst cr))) len', snd cr)
+        else Ok (mksc (Some (Some (fst cr))) (sc_len sc), snd cr)
+    end.
+Definition salt_tail (sc : saltconv) : outcome (list N) :=
+  match sc_st sc with Some (Some c) => c16_process_tail c | _ => Ok [] end.
+Definition salt_scan_with (chk limited : bool) :=
+  convert_token chk saltconv (salt_process limited) salt_tail (mksc None 0).
+Definition salt_scan := salt_scan_with iter_scanner_checks_escapes nsec3_salt_scan_limited.
+
+(* --- OwnerHash --- *)
+Definition hash_from_str_with (limited : bool) (s : list N) : outcome (list N) :=
+  match b32_decode s with
+  | Ok bs => if limited && over nsec3_hash_limit_inclusive nsec3_hash_max bs
+             then Err E_SHORTBUF else Ok bs
+  | other => other
+  end.
+Definition hash_from_str := hash_from_str_with nsec3_hash_from_str_limited.
+Definition hash_display (bs : list N) : outcome (list N) := b32_display bs.
+
+Record hashconv := mkhc { hc_c : conv32; hc_len : N }.
+Definition hash_check (len : N) (data : list N) : outcome N :=
+  let len' := len + N.of_nat (length data) in
+  if nsec3_hash_max <? len' then Err E_TOOLONG else Ok len'.
+Definition hash_process (limited : bool) (h : hashconv) (y : symbol) : outcome (hashconv * list N) :=
+  do cr <- c32_sym (hc_c h) y;
+  if limited then
+    do len' <- hash_check (hc_len h) (snd cr); Ok (mkhc (fst cr) len', snd cr)
+  else Ok (mkhc (fst cr) (hc_len h), snd cr).
+Definition hash_tail (limited : bool) (h : hashconv) : outcome (list N) :=
+  do t <- c32_process_tail (hc_c h);
+  if limited then do _ <- hash_check (hc_len h) t; Ok t else Ok t.
+Definition hash_scan_with (chk limited : bool) :=
+  convert_token chk hashconv (hash_process limited) (hash_tail limited) (mkhc c32_new 0).
+Definition hash_scan := hash_scan_with iter_scanner_checks_escapes nsec3_hash_scan_limited.
+
+(* ------------------------------------------------------------------ *)
 (* RFC 4648 as bit regrouping (the specification; independent of the   *)
 (* shift/mask code and of the decode tables above)                      *)
 
@@ -799,6 +973,18 @@ Definition c18_deccap16 := b16_decode_cap.
 Definition c18_pushcap64 := b64_push_all_cap.
 Definition c18_pushcap32 := b32_push_all_cap.
 Definition c18_pushcap16 := b16_push_all_cap.
+Definition c18_tok64 := b64_scan_token.
+Definition c18_tok32 := b32_scan_token.
+Definition c18_tok16 := b16_scan_token.
+Definition c18_ent64 := b64_scan_entry.
+Definition c18_ent32 := b32_scan_entry.
+Definition c18_ent16 := b16_scan_entry.
+Definition c18_saltstr := salt_from_str.
+Definition c18_saltdisp := salt_display.
+Definition c18_saltscan := salt_scan.
+Definition c18_hashstr := hash_from_str.
+Definition c18_hashdisp := hash_display.
+Definition c18_hashscan := hash_scan.
 Definition c18_conv64 := b64_convert.
 Definition c18_conv32 := b32_convert.
 Definition c18_conv16 := b16_convert.
